@@ -76,7 +76,7 @@ func TestVerifC17Jar(t *testing.T) {
 	defer func() { ops.Flush(); impl.Flush(); opsF.Close(); implF.Close() }()
 	n := 0
 
-	clients := []*tokenV2.VKey{tokenV2.VNewKey("p256", "alice"), tokenV2.VNewKey("ed", "bob"), tokenV2.VNewKey("rsa", "carol")}
+	clients := []*tokenV2.VKey{tokenV2.VNewKey("p256", "alice"), tokenV2.VNewKey("ed", "bob"), tokenV2.VNewKey("rsa", "carol"), tokenV2.VNewKey("p521", "erin")}
 	mallory := tokenV2.VNewKey("p256", "mallory") // has a DID of his own: the DID resolver knows his key, no client publishes it
 	decoy := tokenV2.VNewKey("p256", "decoy")     // a key a client might publish under somebody's kid
 	// the protocol's first key source: the DID resolver
